@@ -33,9 +33,12 @@ def run(ctx, replay):
         apps = APPS
     caselist = {c["id"]: c for c in vlib.read_ndjson(cases)}
     events = []
+    crashes = []
     for app in apps:
         out = ctx.path("c11_%s.ndjson" % app)
         ctx.overlay_test(app, cases, out, timeout=1500)
+        if ctx.overlay_crash:
+            crashes.append((app, ctx.overlay_crash))
         for e in vlib.read_ndjson(out):
             e["app"] = app
             events.append(e)
@@ -87,6 +90,8 @@ def run(ctx, replay):
                    ("did-not-return" if not e["returned"] else
                     ("output-never-written" if not e["ref_matches_expected"] and e["complete_at_return"] else "output-incomplete-at-return")))
         ctx.violation(rec, dict(event=e, app=e["app"], case=caselist.get(e["id"])))
+    for app, crash in crashes:
+        ctx.violation(dict(app=app, kind="application-dies", what=crash["what"][:80]), dict(crash=crash))
     return ctx.finish(
         level="model_checking",
         rule="one case = (application, input with at least one message, which Write call of the output writer is blocked: last, last-1, .., first, second ..); "
